@@ -21,9 +21,12 @@ raw_to_converge converts cost by cost (repair ece4f1b); a one-record slice
 store also addresses index -1 (repair 61064e9); read_import reads the file by
 path, never by module name (repair 0289afb); another monitor's raw costs are
 only read through the k conversion (repair d697a4c).
+Round 6: monitors._load reads the file at the given path too (repair 5a846ca);
+an id of 0 is an id (no truth-value tests on recorded ids).
 NOT decided: textual round trip of particular float/array values.
 """
 import ast
+import re
 
 from ..core import rule
 from ..srcmodel import AnalysisError, walk_no_nested, unparse, norm_stmt
@@ -467,22 +470,21 @@ def every_call_is_recorded_by_value(ctx):
     ctx.check(n_fresh >= 2, 'listify#fresh', 'iterable inputs are rebuilt ([listify(i) for i in x] / listify(list(x)) / the 0-d element)', 'listify no longer rebuilds its input', g, g.node)
 
 
-@rule('C20.i', min_instances=1)
-def parameter_files_are_read_not_imported(ctx):
-    """read_import (behind read_raw_file / read_converge_file / read_support_file and the support scripts) gives back the contents of THE FILE IT IS GIVEN, as it is now. Going through the import machinery by module name cannot guarantee that: modules are cached by name (sys.modules), finders by sys.path entry (a relative '.' entry is resolved once, so only the first directory of a process is ever searched), byte code by size and whole-second mtime (a file rewritten within the second is read as its previous contents), and an installed module of the same name (trace, profile, test) shadows the file. The function therefore reads the file by its path - open(<path built from the argument>) and exec/compile of that text, or runpy.run_path - and contains no import-by-name of the file"""
-    f = ctx.func(MU + ':read_import')
+def _reads_by_path(ctx, f, label):
+    """one reader of parameter files: no import-by-name of the file; it opens the path built from its argument and executes that text, or
+    hands the path to munge.read_import (which is held to the same rule)"""
     fp = f.args()[0]
+    doc = f.node.body[0].value if f.node.body and isinstance(f.node.body[0], ast.Expr) and isinstance(f.node.body[0].value, ast.Constant) else None
     imports = []
     for n in walk_no_nested(f.node):
-        if isinstance(n, ast.Constant) and isinstance(n.value, str) and ('import {' in n.value or n.value.startswith('import ') or ' import ' in n.value) and n is not ast.get_docstring(f.node, clean=False) \
-                and not (f.node.body and isinstance(f.node.body[0], ast.Expr) and f.node.body[0].value is n):
+        if isinstance(n, ast.Constant) and isinstance(n.value, str) and n is not doc and re.search(r'(^|[\s;])(from\s+\S+\s+import|import)\s', n.value):
             imports.append(n)
         if isinstance(n, ast.Call) and callee_text(n).split('.')[-1] in ('import_module', '__import__'):
             imports.append(n)
     if imports:
-        ctx.bad('read_import#by-path', 'read_import reads the parameter file through the import machinery, by module name: which file is read then depends on sys.modules, on the finder cached for the sys.path entry '
-                '(only the first directory used in a process is searched), on cached byte code (a file rewritten within the same second is read as its old contents) and on installed modules of the same name - '
-                'the matching reader does not give back what the writer wrote', f, enclosing_stmt(imports[0]) or f.node, statement='import of the parameter file by module name')
+        ctx.bad(label + '#by-path', '%s reads the parameter file through the import machinery, by module name: which file is read then depends on sys.modules (a module of that name imported earlier wins), on the finder '
+                'cached for the sys.path entry, on cached byte code (a file rewritten within the same second is read as its old contents) and on installed modules of the same name - '
+                'the matching reader does not give back what the writer wrote' % f.qualname, f, enclosing_stmt(imports[0]) or f.node, statement='import of the parameter file by module name')
         return
     names = {fp}          # forward closure: locals computed from the argument
     changed = True
@@ -494,11 +496,18 @@ def parameter_files_are_read_not_imported(ctx):
                     if tg not in names:
                         names.add(tg)
                         changed = True
-    opens = [c for c in walk_no_nested(f.node) if isinstance(c, ast.Call) and callee_text(c).split('.')[-1] in ('open', 'run_path') and c.args and
+    opens = [c for c in walk_no_nested(f.node) if isinstance(c, ast.Call) and callee_text(c).split('.')[-1] in ('open', 'run_path', 'read_import') and c.args and
              any(isinstance(x, ast.Name) and x.id in names for x in ast.walk(c.args[0]))]
-    runs = [c for c in walk_no_nested(f.node) if isinstance(c, ast.Call) and callee_text(c).split('.')[-1] in ('exec', 'run_path')]
-    ctx.need(opens and runs, 'read_import: neither an import by name nor open(<path from the argument>) + exec is recognised (how is the file read?)')
-    ctx.ok('read_import#by-path', 'the file is read by its path (open/compile/exec), not looked up by module name', f, enclosing_stmt(opens[0]))
+    runs = [c for c in walk_no_nested(f.node) if isinstance(c, ast.Call) and callee_text(c).split('.')[-1] in ('exec', 'run_path', 'read_import')]
+    ctx.need(opens and runs, '%s: neither an import by name nor open(<path from the argument>) + exec / read_import(<path>) is recognised (how is the file read?)' % f.qualname)
+    ctx.ok(label + '#by-path', 'the file is read by its path, not looked up by module name', f, enclosing_stmt(opens[0]))
+
+
+@rule('C20.i', min_instances=2)
+def parameter_files_are_read_not_imported(ctx):
+    """read_import (behind read_raw_file / read_converge_file / read_support_file and the support scripts) and monitors._load give back the contents of THE FILE THEY ARE GIVEN, as it is now. Going through the import machinery by module name cannot guarantee that: modules are cached by name (sys.modules), finders by sys.path entry (a relative '.' entry is resolved once, so only the first directory of a process is ever searched), byte code by size and whole-second mtime (a file rewritten within the second is read as its previous contents), and an installed or already imported module of the same name (trace, profile, test) shadows the file. Both readers therefore read the file by its path - open(<path built from the argument>) and exec/compile of that text, runpy.run_path, or read_import - and contain no import-by-name of the file"""
+    _reads_by_path(ctx, ctx.func(MU + ':read_import'), 'read_import')
+    _reads_by_path(ctx, ctx.func(MO + ':_load'), '_load')
 
 
 @rule('C20.j', min_instances=1)
@@ -647,3 +656,26 @@ def foreign_costs_are_read_through_the_k_conversion(ctx):
                       'Monitor.%s copies %s._y - costs scaled by %s.k - into its own list, which is read back with self.k: with different scaling factors the recorded costs come back multiplied by k_other/k_self'
                       % (name, p, p), f, enclosing_stmt(reads[0]) if reads else f.node)
     ctx.need(n >= 3, 'expected >= 3 Monitor methods that take over the costs of another monitor, found %d' % n)
+
+
+@rule('C20.o', min_instances=3)
+def an_id_of_zero_is_an_id(ctx):
+    """recorded ids are data (0 is the id of the first member of an ensemble): the readers of mystic.munge decide "no ids were recorded" by `is None` / `len(ids)` / `.count(None)` only - never by the truth value of the list or of its elements (`not ids` aside from the empty list, `any(ids)`, `all(ids)`): a history whose ids are all 0 would come back without ids and disagree with the monitor's own log file"""
+    m = ctx.model.modules[MU]
+    n = 0
+    for q, fi in sorted(m.funcs.items()):
+        uses = [x for x in ast.walk(fi.node) if isinstance(x, ast.Name) and x.id == 'ids']
+        if not uses:
+            continue
+        n += 1
+        ctx.touch(fi)
+        bad = None
+        for c in ast.walk(fi.node):
+            if isinstance(c, ast.Call) and isinstance(c.func, ast.Name) and c.func.id in ('any', 'all', 'bool') and c.args and isinstance(c.args[0], ast.Name) and c.args[0].id == 'ids':
+                bad = c
+            if isinstance(c, ast.BoolOp) and isinstance(c.op, ast.Or) and isinstance(c.values[0], ast.Name) and c.values[0].id == 'ids':
+                bad = c
+        ctx.check(bad is None, '%s#ids' % fi.qualname, '"no ids" is decided by None / length only',
+                  '%s tests the recorded ids by their truth value (%s): ids that are all 0 count as "none recorded" and are dropped, so read_history(monitor, iter=True) no longer gives back the ids that were recorded'
+                  % (fi.qualname, unparse(bad)[:40] if bad is not None else ''), fi, enclosing_stmt(bad) if bad is not None else fi.node)
+    ctx.need(n >= 3, 'expected >= 3 functions of mystic.munge that handle ids, found %d' % n)
